@@ -361,9 +361,8 @@ impl CKKSEncoder {
         destination.data_mut().fill(0);
         
         let max_coeff = values.iter()
-            .map(|x| x.abs())
-            .reduce(f64::max)
-            .unwrap();
+            .map(|x| (x * scale).abs())
+            .fold(0.0, f64::max);
         // Verify that the values are not too large to fit in coeff_modulus
         // Note that we have an extra + 1 for the sign bit
         // Don't compute logarithmis of numbers less than 1
